@@ -15,10 +15,14 @@ LEVEL_TEXT = ("TLA+ reference definitions written from the statement (maximal de
 LEVEL_NOTE = ("exhaustive over: all strings of length <= 7 (quick 6) over {a, b, delimiter(s)} for split (both forms) and tokenize, all pairs "
               "of strings of length <= 5 (quick 4) over {a, b} for prefixes, all URLs from <= 3 (quick 2) parameters over 3 types x 3 file "
               "names x 2 names x 3 values, all paths of length <= 7 (quick 6) over {a, '.', '/'}, all argument vectors of length <= 5 "
-              "(quick 4) over 3 symbols with all 64 parsers, 13 mantissas x every decade 1e-15..1e21 x both signs and +/-0 for prettyDouble, 212 counts from 0 to SIZE_MAX for prettyNumber; longer inputs only by seeded random "
+              "(quick 4) over 3 symbols with all 64 parsers, 13 mantissas x every decade 1e-15..1e21 x both signs and +/-0 for prettyDouble, 241 counts from 0 to SIZE_MAX (incl. 2^k +- 1 for k = 7..16, 24, 31, 32, 53, 63) for prettyNumber; beyond these only boundary "
+              "families (block-defined strings, tokens, path components and common prefixes of 15..17 / 255..257 / 4095..4097 / 65535..65537 "
+              "characters, that many tokens / URL parameters, argument vectors and removal counts around 256 / 1024 / 4096 / 65536, every byte value "
+              "0..255 first and last in every field, two FileName / PseudoURL objects interleaved with aliasing operands) and seeded random "
               "sampling.  Not covered (not in the statement): split(keepDelim=true), lowerCase/upperCase, FileName::operator-/canonical, "
               "whether operator+ keeps or collapses a separator run at the joint (judged up to collapsing), a const char* right operand of operator+ "
-              "(ambiguous between the two overloads, does not compile), magnitudes outside 1e-15..1e21, NaN / infinity, Windows separators.  Trusted: TLC, the "
+              "(ambiguous between the two overloads, does not compile), magnitudes outside 1e-15..1e21, NaN / infinity, subnormal / huge doubles, strings of 2^31 characters and more, "
+              "backslash as a separator alias, Windows separators.  Trusted: TLC, the "
               "driver's projection of printed text to (decimals, mantissa, suffix), strtod for m*10^e, g++/libstdc++")
 TECHNIQUE = ("TLA+ functional specifications with laws checked by TLC (ASSUME over bounded domains) + exhaustive case replay on the real "
              "code; TLC validation of recorded observations against law predicates; ADT specification with state-graph histories and "
@@ -28,12 +32,15 @@ SPEC = os.path.join(VERIF, "spec", "utility")
 # action -> API path used in signatures
 API = {
     "SplitChar": "StringManip", "SplitSet": "StringManip", "Lcp": "StringManip", "BeginsWith": "StringManip",
-    "Tokenize": "PseudoURL", "UrlParse": "PseudoURL",
+    "Tokenize": "PseudoURL", "UrlParse": "PseudoURL", "TokenizeRep": "PseudoURL", "TokenizeReuse": "PseudoURL", "UrlParseRep": "PseudoURL",
+    "SplitCharRep": "StringManip", "SplitSetRep": "StringManip",
     "FnSplit": "FileName", "FnNameExt": "FileName", "FnDropExt": "FileName", "FnSetExt": "FileName", "FnAddExt": "FileName",
     "FnPlus": "FileName", "FnRecompose": "FileName", "PrettyDouble": "common", "PrettyNumber": "common",
 }
-STRING_ARGS = {"s", "d", "x", "y", "o", "u", "t", "f"}
+STRING_ARGS = {"s", "d", "x", "y", "o", "u", "t", "f", "s1", "s2"}
 ADT_MUT = {"Remove", "ParseAndRemove", "RemoveMod"}
+FO_MUT = {"FoNew", "FoAssign", "FoPlus", "FoSetExt", "FoDropExt"}
+PU_MUT = {"PuNew", "PuCopy", "PuDrop"}
 NOEXP = {"ran": True}
 
 
@@ -296,21 +303,45 @@ def run(chk, replay=None):
         ("PseudoUrlGen", "PseudoUrlGen%s.cfg" % sfx, "Parse(Assemble(parts)) = parts, last duplicate wins"),
         ("FileNamesGen", "FileNamesGen%s.cfg" % sfx, "FileLaws on every path, component-list reading = last-separator reading"),
         ("SiPrintGen", "SiPrintGen.cfg", "SiLaws: the admissibility law is satisfiable and selective for every input"),
+        ("BigStringsGen", "BigStringsGen%s.cfg" % sfx, "block algebra = character-level definitions on all small block lists; long strings / many tokens"),
+        ("ByteSweepGen", "ByteSweepGen%s.cfg" % sfx, "every byte value first and last in every field (placeholder X)"),
     ]:
         cases = sort_keys(funcheck.gen_cases(chk, SPEC, module, cfg, "c18-" + module, workers=1, what=what))
         all_cases += cases
     replay_cases(chk, exe, all_cases, "c18")
     chk.require_actions(["SplitChar", "SplitSet", "Tokenize", "Lcp", "BeginsWith", "UrlParse", "FnSplit", "FnNameExt", "FnDropExt",
-                         "FnSetExt", "FnAddExt", "FnPlus", "FnRecompose", "PrettyDouble", "PrettyNumber"])
+                         "FnSetExt", "FnAddExt", "FnPlus", "FnRecompose", "PrettyDouble", "PrettyNumber",
+                         "TokenizeReuse", "SplitCharRep", "SplitSetRep", "TokenizeRep", "UrlParseRep"])
+    # vacuity: the boundary families of the audit are present (classes computed by TLC)
+    top = "~4096" if quick else "~65536"
+    bguard = {
+        "long_strings_len" + top: sum(1 for c in all_cases if c.get("cls") == "len" + top),
+        "small_string_boundary_len~16": sum(1 for c in all_cases if c.get("cls") == "len~16"),
+        "long_strings_len~256": sum(1 for c in all_cases if c.get("cls") == "len~256"),
+        "many_tokens" + top: sum(1 for c in all_cases if c.get("cls") == "ntok" + top),
+        "many_params" + top: sum(1 for c in all_cases if c.get("cls") == "nparams" + top),
+        "params~128": sum(1 for c in all_cases if c.get("cls") == "nparams~128"),
+        "params~256": sum(1 for c in all_cases if c.get("cls") == "nparams~256"),
+        "byte_nul": sum(1 for c in all_cases if c.get("cls") == "byte=nul"),
+        "byte_control": sum(1 for c in all_cases if c.get("cls") == "byte=ctl"),
+        "byte_high(>=0x80)": sum(1 for c in all_cases if c.get("cls") == "byte=high"),
+        "empty_delimiter_set": sum(1 for c in all_cases if c.get("cls") == "nodelim"),
+        "split_default_vs_explicit_keepDelim": sum(1 for c in all_cases if "tokens_explicit" in c["exp"]),
+        "filename_eq_ne_stream": sum(1 for c in all_cases if "eq_self" in c["exp"]),
+    }
+    chk.cov["boundary_guards"] = bguard
+    if not all(bguard.values()):
+        raise tla.InfraError("vacuity guard: boundary case families missing: %s" % {k: v for k, v in bguard.items() if not v})
     # vacuity: operator+ with an EMPTY left operand, per overload (a case constrains an overload when its result is in exp),
     # and the recomposition of single-component names
-    plus = [c for c in all_cases if c["a"] == "FnPlus" and c["arg"]["s"] == ""]
+    small = [c for c in all_cases if isinstance(c["arg"].get("s"), str) and "byte" not in c["arg"]]     # (not the block / byte families)
+    plus = [c for c in small if c["a"] == "FnPlus" and c["arg"]["s"] == ""]
     guard = {
         "plus_empty_left_FileName_overload": sum(1 for c in plus if "res_fn" in c["exp"]),
         "plus_empty_left_string_overload": sum(1 for c in plus if "res_str" in c["exp"]),
         "plus_default_constructed_left": sum(1 for c in plus if c["arg"].get("dflt") and "res_str" in c["exp"]),
-        "plus_separator_only_left": sum(1 for c in all_cases if c["a"] == "FnPlus" and c["arg"]["s"] and set(c["arg"]["s"]) == {"/"}),
-        "plus_right_empty_or_separator": sum(1 for c in all_cases if c["a"] == "FnPlus" and set(c["arg"]["o"]) <= {"/"}),
+        "plus_separator_only_left": sum(1 for c in small if c["a"] == "FnPlus" and c["arg"]["s"] and set(c["arg"]["s"]) == {"/"}),
+        "plus_right_empty_or_separator": sum(1 for c in small if c["a"] == "FnPlus" and set(c["arg"]["o"]) <= {"/"}),
         "recompose_single_component": sum(1 for c in all_cases if c["a"] == "FnRecompose" and c.get("cls") == "path=empty" and "res_str" in c["exp"]),
         "setExt_addExt_default_argument": sum(1 for c in all_cases if "res_default" in c["exp"]),
         "constructor_overloads": sum(1 for c in all_cases if "str_c" in c["exp"]),
@@ -326,7 +357,7 @@ def run(chk, replay=None):
             chk.add_sample(smp, maxn=8)
 
     # ---- 2. results specified by a law: every such case goes back to TLC (code -> spec) ---------------------
-    law_lines = [{"a": c["a"], "arg": arg_chars(c["arg"])} for c in all_cases if c.get("exp") == NOEXP]
+    law_lines = [{"a": c["a"], "arg": arg_chars(c["arg"])} for c in all_cases if c.get("exp") == NOEXP or c["a"] == "TokenizeReuse"]
     validate_lines(chk, exe, law_lines, "c18-law")
     chk.cov["law_specified_inputs"] = len(law_lines)
     # vacuity: every (suffix range, sign) pair of prettyDouble, every suffix range of prettyNumber and zero was judged
@@ -360,6 +391,34 @@ def run(chk, replay=None):
         chk.log("%s: %d histories replayed (%d mismatching) in %.1fs" % (prefix, len(hs), n, wall))
         chk.cov["distinct_nontrivial"] += adtcheck._nontrivial_distinct(hs, ADT_MUT)
     chk.add_sample({"kind": "history", "object": "ArgumentList", "steps": hs[-1]}, maxn=8)
+    # boundary histories: formula-defined vectors around 256 / 1024 / 4096 (/ 65536) arguments, a copy taken before the
+    # modification, the default argument of remove()
+    big = sort_keys(funcheck.gen_cases(chk, SPEC, "ArgListBigGen", "ArgListBigGen%s.cfg" % sfx, "c18-arglist-big", workers=1,
+                                       what="iterative parser pass = recursive Kept on all small vectors; big-vector histories"))
+    bhs = [c["h"] for c in big]
+    chk.count_actions(bhs)
+    chk.require_actions(["ConstructRep", "Snapshot", "CheckSnapshot"])
+    chk.cov["arglist_big"] = {"histories": len(bhs), "largest_vector": max(st["exp"]["size"] for h in bhs for st in h),
+                              "removals_h>=255": sum(1 for h in bhs for st in h if st["a"] == "Remove" and st["arg"]["h"] >= 255),
+                              "default_argument_removals": sum(1 for h in bhs + hs for st in h if "items_default" in st.get("exp", {}))}
+    if not all(chk.cov["arglist_big"].values()):
+        raise tla.InfraError("vacuity guard: %s" % chk.cov["arglist_big"])
+    for variant, prefix in (("list", "ArgumentList"), ("acav", "removeArgs")):
+        n, wall = adtcheck.replay(chk, exe, bhs, "c18-arglist-big-" + variant, prefix, meta={"variant": variant}, isolate=8, timeout=1800)
+        chk.log("%s: %d boundary histories replayed (%d mismatching) in %.1fs" % (prefix, len(bhs), n, wall))
+        chk.cov["distinct_nontrivial"] += adtcheck._nontrivial_distinct(bhs, ADT_MUT)
+    # several FileName / PseudoURL objects, interleaved, aliasing operands, self-assignment, queries after a throwing one
+    for module, cfg, prefix, mut, need in (("FileObjsMC", "FileObjsGen.cfg", "FileName", FO_MUT, ["FoNew", "FoAssign", "FoPlus", "FoSetExt", "FoDropExt"]),
+                                           ("UrlObjs", "UrlObjsGen.cfg", "PseudoURL", PU_MUT, ["PuNew", "PuCopy", "PuAsk", "PuDrop"])):
+        ohs, oinfo, _ = adtcheck.gen_histories(chk, SPEC, module, cfg, 20000 if quick else 200000, 4,
+                                               walks=1000 if quick else 10000, walk_len=16, seed=chk.seed, mutators=mut, tag="c18-" + module)
+        ohs = sort_keys(ohs)
+        chk.count_actions(ohs)
+        chk.require_actions(need)
+        chk.cov["generation_" + module] = oinfo
+        n, wall = adtcheck.replay(chk, exe, ohs, "c18-" + module, prefix, isolate=500)
+        chk.log("%s objects: %d histories replayed (%d mismatching) in %.1fs" % (prefix, len(ohs), n, wall))
+        chk.cov["distinct_nontrivial"] += adtcheck._nontrivial_distinct(ohs, mut)
     nexec = 20 if quick else 500
     for variant, prefix in (("list", "ArgumentList"), ("acav", "removeArgs")):
         acts = [rand_arglist_actions(rnd, 60) for _ in range(nexec)]
